@@ -258,6 +258,64 @@ theorem cluster_partition_told (env : Env) (c : Cluster) (hw : c.wf) (hf : c.unf
       simp only [List.length_cons] at this
       omega
 
+/-- A partition is counted successful only if its end-of-results was received: in a cluster
+    query that returns no error and was not stopped by the caller, every partition whose handler
+    does not end with a clean final result (`Part.finalErr ≠ some none`: no handler, an error,
+    a stream that ended — EOF, reset — without the end-of-results message, a handler that
+    hangs) is listed in `MissingPartitions` and makes `NumSuccessfulPartitions < NumPartitions`
+    — even when all of its rows happened to arrive. -/
+theorem cluster_success_needs_end_of_results (env : Env) (c : Cluster) (hw : c.wf) (hf : c.unflat = false) (f : UFault)
+    (size : Row → Nat) (now : Nat)
+    (he : (embedded env (.cluster c) f size now).err = none)
+    (hns : (embedded env (.cluster c) f size now).stopped = false) :
+    ∀ (p : Nat) (pt : Part), c.parts[p]? = some pt → pt.finalErr ≠ some none →
+      ∃ st, (embedded env (.cluster c) f size now).stats = some st ∧ p ∈ st.missing ∧ st.successful < st.total := by
+  intro p pt hp hfin
+  have hplt : p < c.parts.length := (List.getElem?_eq_some_iff.mp hp).1
+  simp only [embedded, iterate, clusterIterate, hf] at he hns ⊢
+  generalize hrun : clusterLoop c.parts false (userSink f size) { pending := c.parts.length } {} now c.events = res at he hns ⊢
+  obtain ⟨st', d, e, c'⟩ := res
+  simp only at he hns ⊢
+  obtain ⟨acc, okFin, hinv, hall⟩ := cluster_run2 c.parts hw (userSink f size) {} c.events _ {} now [] []
+    (CInv.init c.parts _ _) _ _ _ _ hrun he
+  have hstop : c'.stopped = false := by
+    cases hs : c'.stopped with
+    | false => rfl
+    | true =>
+      obtain ⟨rep, hfed, hre, hm⟩ := hinv.fedStop hs
+      have := (user_fed f size _ _ _ _ hfed).2.2 hm hre
+      rw [this] at hns; cases hns
+  have hok : p ∉ okFin := by
+    intro hin
+    rcases hinv.okProp p pt hin hp with h | ⟨_, hfe⟩
+    · rw [hstop] at h; cases h
+    · exact hfin hfe
+  refine ⟨c'.stats c.parts.length, rfl, ?_, ?_⟩
+  · rcases hall p hplt with h | h
+    · exact absurd h hok
+    · simp only [CState.stats, List.mem_filter, List.mem_range]
+      exact ⟨hplt, h⟩
+  · simp only [CState.stats]
+    rw [hinv.succ]
+    have := nodup_bounded_length c.parts.length (p :: okFin) (List.nodup_cons.mpr ⟨hok, hinv.okNodup⟩)
+      (fun x hx => by
+        rcases List.mem_cons.mp hx with h | h
+        · subst h; exact hplt
+        · exact hinv.finLt x (hinv.okSub x h))
+    simp only [List.length_cons] at this
+    omega
+
+/-- in particular a remote handler whose stream ends without the end-of-results message -/
+theorem eof_without_end_of_results_is_missing (pt : Part) (k : Nat) (h : pt.outcome = .eofAfter k) :
+    pt.finalErr ≠ some none := by
+  simp [Part.finalErr, h]
+
+/-- a stale handler (stream ended before its first message) is passed over: the partition is
+    served by the next handler in its queue, or is a partition without handler -/
+theorem stale_handler_is_retried (rest : List Attempt) :
+    effectiveOutcome (.stale :: rest) = effectiveOutcome rest ∧ effectiveOutcome [] = .noHandler ∧
+    effectiveOutcome [.stale, .stale] = .noHandler := ⟨rfl, rfl, rfl⟩
+
 /-! ## LIMIT is not a fault -/
 
 /-- whatever happens, a LIMIT query that is not told has delivered exactly the first n rows of a
@@ -424,6 +482,14 @@ theorem fixed_sites_absent :
     Facts.errorDrops.all (fun d => !(d.file == "row_store.go" && d.callee == "ms.tree.Walk") &&
       !(d.file == "web/query.go" && d.callee == "rs.Iterate")) = true := by decide
 
+/-- every way out of the receive loop of rpc/server HandleRemoteQueries (regenerated from the Go
+    source) either sets the handler's error or follows a received end-of-results message: the
+    loop cannot end silently (e.g. on io.EOF), which queryCluster would count as a successful
+    partition; and the end-of-results exit is there -/
+theorem remote_loop_exits_report :
+    Facts.remoteLoopExits.all (fun e => e.setsErr || e.afterEnd) = true ∧
+    Facts.remoteLoopExits.any (fun e => e.afterEnd) = true := by decide
+
 /-! ## Pre-fix witnesses (the record of the findings) -/
 
 def r (k : Nat) : Row := { key := k, ts := 0, vals := [1] }
@@ -517,6 +583,16 @@ example :
                           events := [.msg 1 false, .msg 0 false, .msg 2 false, .msg 0 false, .msg 0 false], unflat := false }
     let o := embedded ⟨Cfg.fixed, none⟩ (.cluster cl) .none noSize 0
     o.rows = [pr 0 1, pr 0 2] ∧ o.err = none ∧ o.stats = some ⟨3, 1, [1, 2]⟩ ∧ o.told = true := by decide
+
+/-- two stale handlers in front of a live one; another partition's stream ends after one row
+    without the end-of-results message: complete for the first, listed as missing for the second -/
+example :
+    let pr (p k : Nat) : Row := { key := k, ts := 0, vals := [1], part := p }
+    let cl : Cluster := { parts := [⟨[pr 0 1, pr 0 2], effectiveOutcome [.stale, .stale, .answer .ok]⟩,
+                                    ⟨[pr 1 3, pr 1 4], effectiveOutcome [.stale, .answer (.eofAfter 1)]⟩],
+                          events := [.msg 0 false, .msg 1 false, .msg 0 false, .msg 1 false, .msg 0 false], unflat := false }
+    let o := embedded ⟨Cfg.fixed, none⟩ (.cluster cl) .none noSize 0
+    o.rows = [pr 0 1, pr 1 3, pr 0 2] ∧ o.err = none ∧ o.stats = some ⟨2, 1, [1]⟩ := by decide
 
 /-- the leader's timer fires while a partition hangs -/
 example :
